@@ -822,8 +822,11 @@ pub fn judge_c07_sampled(w: &WMsg, p: &Probe, max_even: usize) -> Judge {
     if !whole.is_ok() {
         return Err(Fail::new(format!("C07/rejected-well-formed/{}", whole.class()), format!("the complete message does not parse: {}", whole.short())));
     }
-    // bound quadratic cost: all offsets when L <= 600, else 600 offsets spread evenly (+ the last 40)
-    let offsets: Vec<usize> = if l <= max_even { (0..l).collect() } else { (0..l).filter(|k| k % (l / max_even + 1) == 0 || *k + 40 >= l).collect() };
+    // bound quadratic cost: all offsets when L <= 600, else 600 offsets spread evenly (+ the last 40);
+    // for messages beyond 64 KiB (rare: a wide attribute of maximal values runs to megabytes) the number
+    // of offsets is scaled down so that one message costs at most a few GB of parsing
+    let (max_even, tail) = if l > 65536 { (max_even.min((1.5e9 / (24.0 * l as f64)) as usize).max(4), 4) } else { (max_even, 40) };
+    let offsets: Vec<usize> = if l <= max_even { (0..l).collect() } else { (0..l).filter(|k| k % (l / max_even + 1) == 0 || *k + tail >= l).collect() };
     if l > max_even {
         p.label("long message: offsets sampled");
     }
@@ -867,7 +870,9 @@ pub fn judge_c07_sampled(w: &WMsg, p: &Probe, max_even: usize) -> Judge {
             }
             // the same fault when the parser reads through the library's own payload bridge (an
             // IppPayload wrapping a source of the other kind - the payload of an earlier message, say)
-            if k % 4 == 1 && !matches!(*kind, ErrorKind::WouldBlock | ErrorKind::UnexpectedEof) {
+            // (on long messages at every 64th offset only: each 3-byte read through the blocking side of the
+            // bridge spins up an executor inside the library)
+            if k % 4 == 1 && (l <= 2048 || k % 64 == 1) && !matches!(*kind, ErrorKind::WouldBlock | ErrorKind::UnexpectedEof) {
                 for (which, out) in [
                     ("blocking parser over IppPayload(async source), 3-byte reads", parse_blocking_via_async_payload(full.clone(), Schedule::uniform(full.len(), 3), Some((k, *kind)))),
                     ("async parser over IppPayload(blocking source), 3-byte reads", parse_async_via_sync_payload(full.clone(), Schedule::uniform(full.len(), 3), Some((k, *kind)))),
